@@ -356,6 +356,40 @@ theorem TG.expr (m : Nat) : TG true (expr ex m) := by
   intro s hs
   exact TG.lift (Hex (isInLoop s) m) s hs
 
+omit HU in
+/-- the metadata map of a component definition: `parse_literal_map` returns a map, so only the
+`.map` arm of what follows matters -/
+theorem TG.literalMap {α} {f : Value → T α} (il : Bool) (hf : ∀ es, TG false (f (.map es))) :
+    TG false (TParser.lift (parseLiteralMap (ex il)) >>= f) := by
+  intro s hs
+  have h1 := TG.lift (G.parseLiteralMap (Hex il)) s hs
+  simp only [tbind_def, T.bind_apply]
+  cases hr : TParser.lift (parseLiteralMap (ex il)) s with
+  | ok v s1 =>
+    rw [hr] at h1
+    have hv : ∃ es, v = .map es := by
+      unfold TParser.lift at hr
+      cases hp : parseLiteralMap (ex il) s.p with
+      | ok v' p' =>
+        rw [hp] at hr
+        simp only [TRes.ok.injEq] at hr
+        obtain ⟨rfl, _⟩ := hr
+        exact parseLiteralMap_value _ _ _ hp
+      | err => rw [hp] at hr; cases hr
+      | panic m => rw [hp] at hr; cases hr
+      | fuel => rw [hp] at hr; cases hr
+    obtain ⟨es, rfl⟩ := hv
+    simp only []
+    have h2 := hf es s1 (hs.suffix h1.1)
+    cases hr2 : f (.map es) s1 with
+    | ok c s2 => rw [hr2] at h2; exact Left.trans (b3 := false) (by simp) h1 h2
+    | err => simp [okT]
+    | panic m => rw [hr2] at h2; simp [okT] at h2
+    | fuel => rw [hr2] at h2; simp [okT] at h2
+  | err => simp [okT]
+  | panic m => rw [hr] at h1; simp [okT] at h1
+  | fuel => rw [hr] at h1; simp [okT] at h1
+
 /-! ### automation (same scheme as Lemmas/ParseTotal.lean) -/
 
 syntax "tgstrict" : tactic
@@ -386,6 +420,7 @@ macro_rules
         | with_reducible refine TG.tagEnd_rec (by assumption) _ (fun _ => ?_)
         | with_reducible exact TG.tagEnd_rec0 (by assumption) _
         | with_reducible refine TG.withFuel (fun _ => ?_)
+        | with_reducible refine TG.literalMap (by assumption) _ (fun _ => ?_)
         | (with_reducible refine TGN.bind_tgn_g ?_ (fun _ => ?_); focus (with_reducible apply_assumption))
         | with_reducible refine TG.bind_ff ?_ (fun _ => ?_)
         | dsimp only
@@ -417,6 +452,42 @@ theorem TGN.parseIf : ∀ n, TGN n (parseIf recU ex n) := by
   | succ n ih =>
     unfold TParser.parseIf
     tgntac
+
+theorem TG.parseForLoop : TG false (parseForLoop recU ex) := by
+  have he := TG.expr Hex
+  unfold TParser.parseForLoop
+  tgtac
+
+theorem TG.parseSet (g : Bool) : TG false (parseSet recU ex g) := by
+  have he := TG.expr Hex
+  have hf : ∀ il n acc, GN n (setFilters (ex il) n acc) := fun il => GN.setFilters (Hex il)
+  unfold TParser.parseSet
+  tgtac
+
+theorem TG.parseComponentDefinition : TG false (parseComponentDefinition C recU ex) := by
+  have hd := G.dottedName
+  have ha : ∀ n kw seen, GN n (componentArgs (C false) (ex false) n kw seen) :=
+    GN.componentArgs (Hex false) (C false)
+  unfold TParser.parseComponentDefinition
+  tgtac
+
+theorem TG.parseComponentWithBody : TG false (parseComponentWithBody recU ex) := by
+  have hd := G.dottedName
+  have hc : ∀ il n acc, GN n (componentAttributes (ex il) n acc) :=
+    fun il => GN.componentAttributes (Hex il)
+  unfold TParser.parseComponentWithBody
+  tgtac
+
+theorem TG.parseTag (isFirst : Bool) : TG true (parseTag C recU ex isFirst) := by
+  have h1 := TG.parseSet Hex HU
+  have h2 := TG.parseForLoop Hex HU
+  have h3 := TGN.parseIf Hex HU
+  have h4 := TG.parseComponentDefinition (C := C) Hex HU
+  have h5 := TG.parseComponentWithBody Hex HU
+  have hk : ∀ il, G true (parseKwargs (ex il)) := fun il => G.parseKwargs (Hex il)
+  unfold TParser.parseTag
+  refine TG.bind_tf (TG.lift G.nextOrError) (fun t => ?_)
+  tgtac
 
 end level
 
